@@ -84,13 +84,20 @@ def make_case(seed, idx):
         cfg = heavy_cfg(rnd)
         cfg['W'] = W
         p, argv = gen.gen_program(rnd, cfg)
+    twin = None
     if idx % 5 == 4:
+        import random as _random
         fk = rnd.choice(('div', 'idx_read', 'idx_write', 'idx_aug', 'str_idx', 'bad_len', 'bad_len'))
+        state = rnd.getstate()
         p2, info = faults.plant(rnd, p, fk, W, True)
         if p2 is not None:
+            if fk == 'bad_len':
+                r2 = _random.Random()
+                r2.setstate(state)
+                twin, _ = faults.plant(r2, p, fk, W, False)     # same place, harmless length
             p = p2
             kind += '+fault'
-    return rnd, p, argv, W, kind
+    return rnd, p, argv, W, kind, twin
 
 
 def judge_size(p, argv, W, s, ref, kind, N, poison):
@@ -121,7 +128,7 @@ def judge_size(p, argv, W, s, ref, kind, N, poison):
 
 
 def case(seed, idx, tier):
-    rnd, p, argv, W, kind = make_case(seed, idx)
+    rnd, p, argv, W, kind, twin = make_case(seed, idx)
     res = common.new_result()
     # generous run first
     gcfg = dict(W=W, stack=common.GENEROUS, max_steps=1_500_000)
@@ -163,8 +170,17 @@ def case(seed, idx, tier):
                     bad = (probs, ev_s, cfg_s)
     if (not found and N is None and ev.res is not None and ref.outcome == 'ERROR' and ref.error_kind == 'stack_overflow'
             and ev.res.outcome == 'ERROR'):
-        # a bad dynamic length: must be refused at every stack size, with an intact prefix
-        for s in (0, 3, 10, 50, 200, 1000):
+        # a bad dynamic length: must be refused at every stack size, with an intact prefix;
+        # every size up to just above the need of the harmless twin is enumerated (guards that
+        # wrap around do so only when the stack is within a few bytes of an exact fit)
+        sizes = [0, 3, 10, 50, 200, 1000]
+        if twin is not None:
+            from .. import render
+            nt = common.min_stack(render.program(twin), argv, W, False, hi=common.GENEROUS, max_steps=1_500_000)
+            if nt is not None and nt <= 120:
+                sizes = sorted(set(sizes) | set(range(0, nt + 12)))
+                res['counters']['bad_length_fully_enumerated'] = 1
+        for s in sizes:
             probs, ev_s, cfg_s = judge_size(p, argv, W, s, ref, kind, 10 ** 9, poison=idx * 1000 + s + 1)
             sizes_run += 1
             common.add_counters(res, ev_s)
